@@ -10,7 +10,7 @@ VERIF = os.path.dirname(os.path.dirname(os.path.abspath(__file__)))
 sys.path.insert(0, os.path.join(VERIF, 'harness'))
 READERS = [('gen_options', 'table'), ('gen_getopt', 'tables'), ('gen_quota', 'programs'), ('gen_elect', 'table'), ('gen_formula', 'formulas'),
            ('gen_guard', 'guards'), ('gen_keys', 'keys'), ('gen_tie', 'table'), ('gen_choice', 'table'), ('gen_select', 'program'),
-           ('gen_status', 'tables'), ('gen_transfer', 'table'), ('gen_moves', 'table'), ('gen_fixed', 'programs'), ('gen_ctor', 'programs'),
+           ('gen_status', 'tables'), ('gen_transfer', 'table'), ('gen_moves', 'tables'), ('gen_fixed', 'programs'), ('gen_ctor', 'programs'),
            ('gen_cmp', 'programs'), ('gen_str', 'programs'), ('gen_rstr', 'programs'), ('gen_validate', 'program'), ('gen_bltopts', 'table'), ('gen_code', 'program'),
            ('gen_asdict', 'table'), ('gen_actions', 'tables'), ('gen_dump', 'tables'), ('gen_needs', 'tables'), ('gen_initwrites', 'programs'), ('gen_begin', 'tables'), ('gen_addlog', 'table')]
 
